@@ -112,6 +112,11 @@ class SymSparse:
     def sum(self, axis=None):
         return self.A.sum(axis=axis)
 
+    def reshape(self, *shape, **kw):
+        if len(shape) == 1 and isinstance(shape[0], (tuple, list)):
+            shape = tuple(shape[0])
+        return SymSparse(self.A.reshape(shape))
+
     def dot(self, other):
         return self @ other
 
